@@ -114,7 +114,7 @@ def r2(ctx):
     if len(rets) == 1 and isinstance(rets[0], ast.BinOp) and isinstance(rets[0].op, ast.Div):
         num = u(rets[0].left)
         den = u(rets[0].right.args[0]) if isinstance(rets[0].right, ast.Call) and u(rets[0].right.func) == "float" else u(rets[0].right)
-    ctx.check(num is not None, "report:distance:returns-ratio", f"distance must return <differing lines> / <lines used by either platform>: {[u(r) for r in rets]}", f.loc())
+    ctx.soft(num is not None, "report:distance:returns-ratio", f"distance must return <differing lines> / <lines used by either platform>: {[u(r) for r in rets]}", f.loc())
     table = {}
     for a, b in itertools.product((False, True), repeat=2):
         member = {f"{p1} in {ps}": a, f"{p2} in {ps}": b}
@@ -149,7 +149,7 @@ def r2(ctx):
     sub, sloc = [u(e) for e in lp.target.elts]
     rets = [n.value for n in walk_no_nested(g.node) if isinstance(n, ast.Return) and "nan" not in u(n.value)]
     ok = len(rets) == 1 and u(rets[0]) in ("used / total * 100.0", "used / total * 100", "100.0 * used / total", "100 * used / total", "100.0 * (used / total)")
-    ctx.check(ok, "report:coverage:returns-percentage", f"coverage must return used / total * 100: {[u(r) for r in rets]}", g.loc())
+    ctx.soft(ok, "report:coverage:returns-percentage", f"coverage must return used / total * 100: {[u(r) for r in rets]}", g.loc())
 
     class CH(Hooks):
         def __init__(self, empty, anyp):
@@ -189,10 +189,15 @@ def r2(ctx):
         if anyp:
             want["used"] = sloc
         ctx.check(incs == want, key, f"adds {incs}; coverage requires every row in the total and exactly the rows used by at least one selected platform in `used` ({want})", g.loc(lp))
+    # every row of the table is visited: no break / return inside the accumulation loops
+    for fn_ in (f, g):
+        for lp_ in [n for n in fn_.node.body if isinstance(n, ast.For)]:
+            bad = [x for x in ast.walk(lp_) if isinstance(x, (ast.Break, ast.Return))]
+            ctx.check(not bad, f"report:{fn_.name}:loop-visits-every-row", f"the accumulation loop `for {u(lp_.target)} in {u(lp_.iter)}` can stop early ({u(bad[0]) if bad else ''}): rows after that point are left out of the sums, so the metric depends on the order of the table", fn_.loc(lp_))
     # default platform set = all platforms of the table
     dflt = [s for s in g.node.body if isinstance(s, ast.If) and u(s.test) == f"not {plc}"]
     ok = len(dflt) == 1 and u(dflt[0].body[0]) == f"{plc} = set().union(*{smc}.keys())"
-    ctx.check(ok, "report:coverage:default-platforms", "without `platforms`, all platforms of the table must be selected", g.loc())
+    ctx.soft(ok, "report:coverage:default-platforms", "without `platforms`, all platforms of the table must be selected", g.loc())
     ctx.floor(4 + 1 + 3 + 2)
 
 
@@ -255,10 +260,10 @@ def r4(ctx):
         ctx.check(ok, key + ":single-platform-coverage", f"each term must be the coverage of ONE platform, passed as a one-element collection (`coverage({sm}, [{v}])`): `{u(el)}` - a bare string turns the membership test `p in platforms` into a substring test", f.loc(el))
         # summation operator
         par = [n for n in walk_no_nested(f.node) if isinstance(n, ast.Call) and any(a is comp for a in n.args)]
-        ctx.check(len(par) == 1 and u(par[0].func) in ("math.fsum", "sum"), key + ":sum", "terms must be summed", f.loc(comp))
+        ctx.soft(len(par) == 1 and u(par[0].func) in ("math.fsum", "sum"), key + ":sum", "terms must be summed", f.loc(comp))
     dflt = [s for s in f.node.body if isinstance(s, ast.If) and u(s.test) == f"not {pl}"]
     ok = len(dflt) == 1 and u(dflt[0].body[0]) == f"{pl} = set().union(*{sm}.keys())"
-    ctx.check(ok, "report:average_coverage:default-platforms", "without `platforms`, all platforms of the table must be averaged", f.loc())
+    ctx.soft(ok, "report:average_coverage:default-platforms", "without `platforms`, all platforms of the table must be averaged", f.loc())
     # ---- divergence
     d = repo.func("report", "divergence")
     smd = d.params[0]
@@ -277,11 +282,11 @@ def r4(ctx):
     if ok:
         leaves = provenance(d, pairs[0].args[0], stmt_of(d, pairs[0]))
         ok = any(u(l).startswith("extract_platforms(") or u(l) == smd for l, c in leaves)
-    ctx.check(ok, key + ":all-pairs", "distances must be taken over all 2-element combinations (or permutations) of the platform list", d.loc())
+    ctx.soft(ok, key + ":all-pairs", "distances must be taken over all 2-element combinations (or permutations) of the platform list", d.loc())
     # each pair contributes distance(setmap, p1, p2) once and is counted once
     dc = [c for c in d.calls() if callee(c) == "distance"]
     ok = len(dc) == 1 and u(dc[0].args[0]) == smd
-    ctx.check(ok, key + ":distance-of-pair", "each pair must contribute distance(setmap, p1, p2)", d.loc())
+    ctx.soft(ok, key + ":distance-of-pair", "each pair must contribute distance(setmap, p1, p2)", d.loc())
     rets = [n.value for n in walk_no_nested(d.node) if isinstance(n, ast.Return) and "nan" not in u(n.value)]
     ok = len(rets) == 1 and isinstance(rets[0], ast.BinOp) and isinstance(rets[0].op, ast.Div)
     if ok:
@@ -295,13 +300,13 @@ def r4(ctx):
         dchains = sum((c for _, c in dl), [])
         sums = any(c in ("math.fsum", "sum", "<aug>") for c in nchains)
         ok = "distance" in nchains and sums and ("len" in dchains and "distance" in dchains or "<aug>" in dchains)
-    ctx.check(ok, key + ":mean", f"divergence must be (sum of pair distances) / (number of pairs): {[u(r) for r in rets]}", d.loc())
+    ctx.soft(ok, key + ":mean", f"divergence must be (sum of pair distances) / (number of pairs): {[u(r) for r in rets]}", d.loc())
     # extract_platforms: union of all keys
     e = repo.func("report", "extract_platforms")
     rets = [u(n.value) for n in walk_no_nested(e.node) if isinstance(n, ast.Return)]
     env = {u(s.targets[0]): u(s.value) for s in e.node.body if isinstance(s, ast.Assign)}
     ok = len(rets) == 1 and rets[0] in ("list(unique_platforms)", "sorted(unique_platforms)") and env.get("unique_platforms") == f"set(it.chain.from_iterable({e.params[0]}.keys()))"
-    ctx.check(ok, "report:extract_platforms:union-of-keys", f"must return the union of all platform sets: {rets} {env}", e.loc())
+    ctx.soft(ok, "report:extract_platforms:union-of-keys", f"must return the union of all platform sets: {rets} {env}", e.loc())
     ctx.floor(9)
 
 
@@ -315,7 +320,7 @@ def r5(ctx):
         if isinstance(s, ast.Assign) and isinstance(s.targets[0], ast.Name):
             env[s.targets[0].id] = s.value
     pl = env.get("platforms")
-    ctx.check(pl is not None and u(pl) == f"sorted(extract_platforms({sm}))", "report:clustering:platforms-sorted", f"platform list must be sorted(extract_platforms({sm})): {u(pl) if pl is not None else None}", f.loc())
+    ctx.soft(pl is not None and u(pl) == f"sorted(extract_platforms({sm}))", "report:clustering:platforms-sorted", f"platform list must be sorted(extract_platforms({sm})): {u(pl) if pl is not None else None}", f.loc())
     m = env.get("matrix")
     key = "report:clustering:matrix-layout"
     if m is None:
@@ -351,13 +356,13 @@ def r5(ctx):
     # labels
     lm = env.get("labelled_matrix")
     ok = lm is not None and "enumerate(platforms)" in u(lm) and "matrix[row]" in u(lm)
-    ctx.check(ok, "report:clustering:row-labels", "row i of the printed table must be labelled platforms[i] and show matrix[i]", f.loc())
+    ctx.soft(ok, "report:clustering:row-labels", "row i of the printed table must be labelled platforms[i] and show matrix[i]", f.loc())
     tab = [c for c in f.calls() if callee(c) == "tabulate"]
     ok = len(tab) == 1 and u(tab[0].args[0]) == "labelled_matrix" and {k.arg: u(k.value) for k in tab[0].keywords}.get("headers") == "platforms"
-    ctx.check(ok, "report:clustering:column-labels", "columns must be headed by the same platform list", f.loc())
+    ctx.soft(ok, "report:clustering:column-labels", "columns must be headed by the same platform list", f.loc())
     dg = [c for c in f.calls() if u(c.func).endswith("dendrogram")]
     ok = len(dg) == 1 and {k.arg: u(k.value) for k in dg[0].keywords}.get("labels") == "platforms"
-    ctx.check(ok, "report:clustering:dendrogram-labels", "dendrogram leaves must be labelled with the same platform list", f.loc())
+    ctx.soft(ok, "report:clustering:dendrogram-labels", "dendrogram leaves must be labelled with the same platform list", f.loc())
     ctx.floor(5)
 
 
@@ -392,7 +397,7 @@ def r7(ctx):
                     else:
                         ok = u(fv[0].value) == want[label]
                 ctx.check(ok, f"report:summary:prints:{label}", f"`{label}` must print {want[label]} as returned (NaN when undefined); the printed value has definitions {sorted(srcs)}", f.loc(n))
-    ctx.check(found == 3, "report:summary:three-metrics", f"expected the three metric lines, found {found}", f.loc())
+    ctx.soft(found == 3, "report:summary:three-metrics", f"expected the three metric lines, found {found}", f.loc())
     # the metric functions reference no module-level mutable state and keep nothing between calls
     mod = repo.mod("report")
     for name in ("coverage", "average_coverage", "distance", "divergence", "extract_platforms"):
